@@ -27,12 +27,12 @@ type AliasJob struct {
 
 // AliasResult is the worker's answer.
 type AliasResult struct {
-	NoQuery      []int    `json:"no_query"`
-	NotMayAlias  [][2]int `json:"not_may_alias"`
-	MissingLabel [][2]int `json:"missing_label"`
-	Checked      int      `json:"checked"`
+	NoQuery      []int          `json:"no_query"`
+	NotMayAlias  [][2]int       `json:"not_may_alias"`
+	MissingLabel [][2]int       `json:"missing_label"`
+	Checked      int            `json:"checked"`
 	Desc         map[int]string `json:"desc"`
-	Err          string   `json:"err,omitempty"`
+	Err          string         `json:"err,omitempty"`
 }
 
 func init() {
@@ -213,7 +213,9 @@ func C11(tier string) {
 		for p := range birthSet {
 			job.Births = append(job.Births, p)
 		}
-		sort.Slice(job.Pairs, func(i, j int) bool { return job.Pairs[i][0]*100000+job.Pairs[i][1] < job.Pairs[j][0]*100000+job.Pairs[j][1] })
+		sort.Slice(job.Pairs, func(i, j int) bool {
+			return job.Pairs[i][0]*100000+job.Pairs[i][1] < job.Pairs[j][0]*100000+job.Pairs[j][1]
+		})
 		jf := filepath.Join(dir, "alias.job.json")
 		core.WriteJSON(jf, job)
 		cr := SpawnWorker("alias", jf, 0)
